@@ -24,8 +24,10 @@ def check(ctx, f, tr, ts, por=True):
     n_r, n_s = math.ceil(tr * f - 1e-9), math.ceil(ts * f - 1e-9)
     pr = ir.drivers('self.phy_reset', exact=True)
     ps = ir.drivers('self.phy_stop', exact=True)
-    ctx.need(len(pr) == 1 and len(ps) == 1 and pr[0].rhs.op == 'ongoing', 'phy_reset / phy_stop drivers')
-    rst = pr[0].rhs.args[1]
+    # phy_reset is raised in exactly one state: written inside the state or as `fsm.ongoing(state)` outside (one IR form)
+    ctx.need(len(pr) == 1 and len(ps) == 1 and pr[0].state is not None and q.is_one(pr[0].rhs) and not pr[0].guard,
+             'phy_reset / phy_stop drivers')
+    rst = q.state_of(pr[0])
     ok = ps[0].rhs.op == '~' and ps[0].rhs.args[0].op == 'ongoing'
     idle = ps[0].rhs.args[0].args[1] if ok else None
     ctx.ob('C54.outputs', 'PHYResetController.phy_stop[%s]' % tag, ok and idle in fsm.states and rst in fsm.states and idle != rst
